@@ -204,4 +204,13 @@ example : noNodes (.seq .list 24 (.prim .u8)) = false := by decide
 example : allocTotal (run (traceRec (memInput 100 ioInput)) (Impl.decodeR (.seq .vec 1 (.prim .u8)))
     ((Spec.compact 40000 ++ [1, 2, 3], 0), [])).2.2 = 0 := by decide
 
+/-- A user-defined wrapper with the provided `decode_wrapped` announces nothing: the tracked usage
+    of `wrap t` is that of `t` — unlike `Box<T>`, which announces `size_of::<T>()` (and at a limit of 0
+    is refused even for `size_of::<T>() = 0`; the wrapper is not). -/
+theorem user_wrapper_announces_nothing (t : Ty) (v : Val) : payload (.wrap t) v = payload t v := by
+  simp [payload]
+
+example : (decodeMemLimit 0 (.wrap (.prim .u8)) [7]).1.isOk = true := by decide
+example : (decodeMemLimit 0 (.box 0 (.prim .u8)) [7]).1.isOk = false := by decide
+
 end Scale.C12
